@@ -14,7 +14,7 @@ RULE = ("abstract op lists serialised to the reference wire format and interpret
         "the written regions, files at AddFile targets, unrelated files) through ZiPatch::apply, GameData::apply_patch and BootData::apply_patch. Oracle: apply returns Ok, every regular "
         "file byte-identical to the model, file set equal, directories required <= actual <= required+optional. non-trivial = patch with >= 1 tree-changing op; distinct = digest of the wire bytes + tree")
 ASSUMPTIONS = ["reference ZiPatch semantics as implemented by XIVLauncher's ZiPatch reader (chunk layouts, <<7 block units, empty-block header, header offsets 0/1024)",
-               "leniencies: directory effects of F/M (only parent required), ADIR/DELD (optional), F/R (no regular file of sqpack/<exp> survives except .var/.bk2; movie/<exp> unconstrained); "
+               "leniencies: directory effects of F/M (only parent required), ADIR/DELD (optional), F/R (no regular file of sqpack/<exp> survives except .var/.bk2; movie/<exp> unconstrained except that 00000..00003.bk2 are kept); "
                "D into a missing directory not generated; region in {-1, 1}"]
 
 
